@@ -90,3 +90,49 @@ pub fn sched_point(site: &'static str) {
         f(site);
     }
 }
+
+pub(crate) fn snap_list<T>(
+    name: &'static str,
+    list: &crate::intrusive_double_linked_list::LinkedList<T>,
+    is_live: IsLive<'_>,
+    conv: &dyn Fn(&T) -> (u8, bool, u64),
+) -> QueueSnap {
+    let mut nodes = Vec::new();
+    let res = list.verif_walk(is_live, &mut |addr, data| {
+        let (state, has_waker, aux) = conv(data);
+        nodes.push(NodeSnap {
+            addr,
+            state,
+            has_waker,
+            aux,
+        });
+    });
+    QueueSnap {
+        name,
+        nodes,
+        error: res.err(),
+    }
+}
+
+pub(crate) fn snap_heap<T: Ord>(
+    name: &'static str,
+    heap: &crate::intrusive_pairing_heap::PairingHeap<T>,
+    is_live: IsLive<'_>,
+    conv: &dyn Fn(&T) -> (u8, bool, u64),
+) -> QueueSnap {
+    let mut nodes = Vec::new();
+    let res = heap.verif_walk(is_live, &mut |addr, data| {
+        let (state, has_waker, aux) = conv(data);
+        nodes.push(NodeSnap {
+            addr,
+            state,
+            has_waker,
+            aux,
+        });
+    });
+    QueueSnap {
+        name,
+        nodes,
+        error: res.err(),
+    }
+}
